@@ -20,6 +20,7 @@ PROFILE = {
     "max_delay_ticks": 48,
     "attempt_timeout": 0.1,
     "handler_time": 0.3,
+    "falsy_components": 0.3,
 }
 
 
